@@ -10,6 +10,9 @@
 //!                via     = parse_recognize::<Value>(s) |> T::try_from_value  (events from the bridge)
 //!                conv    = parse_recognize::<Value>(s) |> T::try_convert
 //!                mp      = parse_recognize::<Value>(s) |> msgpack |> read_from_msg_pack::<T>
+//!   op = "seq"   s1 .. sn: Recon texts decoded one after the other, as length-delimited frames, by ONE
+//!                WithLenRecognizerDecoder<T::Rec> (direct) and ONE WithLenRecognizerDecoder<Value::Rec>
+//!                followed by try_from_value / try_convert (via): the recognizers are reused after reset()
 //!
 //! Typed values are reported as canonical serde_json (maps sorted), model values in the tagged
 //! encoding {"k": kind, "v": ..} / {"k":"rec","attrs":[{"n","v"}],"items":[{"key"?, "v"}]}.
@@ -22,7 +25,11 @@ use swimos_form::write::StructuralWritable;
 use swimos_form::{Form, Tag};
 use swimos_model::{Attr, Item, Text, Value};
 use swimos_msgpack::{read_from_msg_pack, MsgPackInterpreter};
+use bytes::Buf;
+use swimos_form::read::RecognizerReadable;
 use swimos_recon::parser::parse_recognize;
+use swimos_recon::WithLenRecognizerDecoder;
+use tokio_util::codec::Decoder;
 use swimos_recon::{print_recon, print_recon_compact, print_recon_pretty};
 
 // ------------------------------------------------------------------ model values <-> json
@@ -219,6 +226,8 @@ form_ty! {
     struct BodyValue { n: i32, #[form(body)] #[serde(with = "valjson")] body: Value }
 
     struct HdrValue { #[form(header_body)] #[serde(with = "valjson")] hb: Value, x: i32 }
+
+    struct CollHdr { xs: Vec<HdrBoth>, o: Option<HdrBoth> }
 }
 
 // ------------------------------------------------------------------ observations
@@ -268,8 +277,59 @@ fn read_paths<T: Form + Serialize>(s: &str, want_val: bool) -> J {
     o
 }
 
+/// Feeds one length-delimited frame to a (reused) decoder.
+fn decode_frame<D: Decoder>(dec: &mut D, text: &str) -> Result<Option<D::Item>, D::Error> {
+    let mut buf = BytesMut::with_capacity(text.len() + 8);
+    buf.put_u64(text.len() as u64);
+    buf.put_slice(text.as_bytes());
+    let mut last = Ok(None);
+    // the decoder may need several calls to get through header / body / trailing bytes of the frame
+    for _ in 0..4 {
+        let before = buf.remaining();
+        last = dec.decode(&mut buf);
+        match &last {
+            Ok(None) if buf.remaining() < before && buf.has_remaining() => continue,
+            _ => break,
+        }
+    }
+    last
+}
+
+fn run_seq<T: Form + Serialize>(case: &J) -> J {
+    let texts: Vec<&str> = case["texts"].as_array().expect("texts").iter().map(|t| t.as_str().unwrap()).collect();
+    let mut direct = WithLenRecognizerDecoder::new(T::make_recognizer());
+    let mut model = WithLenRecognizerDecoder::new(Value::make_recognizer());
+    let mut frames = Vec::new();
+    for s in texts {
+        let d = match decode_frame(&mut direct, s) {
+            Ok(Some(v)) => typed::<T, String>(Ok(v)),
+            Ok(None) => json!({"ok": false, "err": "incomplete"}),
+            Err(e) => json!({"ok": false, "err": e.to_string()}),
+        };
+        let mut o = json!({ "direct": d, "text": s, "fresh": typed(parse_recognize::<T>(s, false)) });
+        match decode_frame(&mut model, s) {
+            Ok(Some(v)) => {
+                o["parse_ok"] = json!(true);
+                o["via"] = typed(T::try_from_value(&v));
+                o["conv"] = typed(T::try_convert(v));
+            }
+            Ok(None) => {
+                o["parse_ok"] = json!(false);
+                o["parse_err"] = json!("incomplete");
+            }
+            Err(e) => {
+                o["parse_ok"] = json!(false);
+                o["parse_err"] = json!(e.to_string());
+            }
+        }
+        frames.push(o);
+    }
+    json!({ "frames": frames })
+}
+
 fn run<T: Form + Serialize + DeserializeOwned + Clone>(case: &J) -> J {
     match case["op"].as_str().unwrap_or("doc") {
+        "seq" => run_seq::<T>(case),
         "inst" => {
             let x: T = match serde_json::from_value(case["x"].clone()) {
                 Ok(x) => x,
@@ -368,6 +428,12 @@ battery! {
     "i32" => i32, "u64" => u64, "f64" => f64, "bool" => bool, "String" => String,
     "VecI" => Vec<i32>, "OptI" => Option<i32>, "MapSI" => HashMap<String, i32>, "PairIS" => (i32, String),
     "OptTwo" => Option<Two>, "VecTwo" => Vec<Two>, "VecOptI" => Vec<Option<i32>>,
+    // recognizer reuse inside collections
+    "VecHdrBoth" => Vec<HdrBoth>, "MapHdrBoth" => HashMap<i32, HdrBoth>, "OptHdrBoth" => Option<HdrBoth>, "CollHdr" => CollHdr,
+    "VecHdrSlots" => Vec<HdrSlots>, "VecHdrBody" => Vec<HdrBody>, "VecHdrVec" => Vec<HdrVec>, "VecHdrNest" => Vec<HdrNest>,
+    "VecHdrOpt" => Vec<HdrOpt>, "VecWithAttr" => Vec<WithAttr>, "VecTwoAttrs" => Vec<TwoAttrs>, "VecBodyNest" => Vec<BodyNest>,
+    "VecBodyStr" => Vec<BodyStr>, "VecShape" => Vec<Shape>, "VecOpSI" => Vec<Op<String, i32>>, "VecTagField" => Vec<TagField>,
+    "VecTup" => Vec<Tup>, "VecOpt" => Vec<Opt>, "MapShape" => HashMap<String, Shape>,
 }
 
 fn run_case(case: &J) -> J {
